@@ -1193,3 +1193,321 @@ def rule_beat_type_source(ctx, scope, label):
                           f"unit (3/4 would be treated like 3/3)")
     ctx.ok(rule, f"{label}: {n} conversion(s) with a recognised time-signature source")
     return n
+
+
+# =====================================================================================
+# rules added after round 4 of the seeded changes
+# =====================================================================================
+
+def rule_group_stack_top(ctx):
+    rule = "STACK-top"
+    ctx.rule(rule, "MusicXML part groups are closed like a stack: the loop that closes groups stops when the wanted group is the *top* "
+                   "of the stack (a membership test would leave inner groups open)")
+    outer = ctx.prog.func("partitura.io.exportmusicxml:save_musicxml", rule)
+    n = 0
+    for fn in [x for x in ast.walk(outer.node) if isinstance(x, ast.FunctionDef) and x is not outer.node]:
+        for w in ast.walk(fn):
+            if not (isinstance(w, ast.While) and isinstance(w.test, ast.Name)):
+                continue
+            stack = w.test.id
+            pops = any(isinstance(c, ast.Call) and norm(c.func) == f"{stack}.pop" for c in ast.walk(w))
+            brk = [i for i in ast.walk(w) if isinstance(i, ast.If) and any(isinstance(b, ast.Break) for b in i.body)]
+            if not (pops and brk):
+                continue
+            n += 1
+            t = brk[0].test
+            top = any(isinstance(s, ast.Subscript) and norm(s.value) == stack and norm(s.slice) in ("-1", "len(%s) - 1" % stack) for s in ast.walk(t))
+            member = any(isinstance(c, ast.Compare) and any(isinstance(o, (ast.In, ast.NotIn)) for o in c.ops) and any(norm(x) == stack for x in c.comparators)
+                         for c in ast.walk(t))
+            ctx.check(top and not member, rule, f"{fn.name}: `{norm(t)[:40]}`", func=outer, node=brk[0], construct="group-closing-not-stack-top",
+                      msg=f"the loop that pops `{stack}` stops on `{norm(t)}`: it must compare with the top of the stack (`{stack}[-1]`), otherwise a nested "
+                          f"group that should be closed stays open and later parts end up inside it")
+    ctx.floor(rule, "group closing loops", n, 1)
+
+
+def rule_position_updates_maxtime(ctx):
+    rule = "MAXTIME"
+    ctx.rule(rule, "importmusicxml._handle_measure: every branch that moves the cursor (`position`) also folds it into the measure's "
+                   "maximal time, which places the closing barline and the next measure")
+    f = ctx.prog.func("partitura.io.importmusicxml:_handle_measure", rule)
+    # by role: the name returned first / passed as the end to part.add(measure, ..)
+    rets = [r for r in own_nodes(f.node) if isinstance(r, ast.Return) and isinstance(r.value, ast.Tuple) and r.value.elts and isinstance(r.value.elts[0], ast.Name)]
+    ctx.require(rets, rule, f.qname, "returned maximal time not found")
+    mx = rets[0].value.elts[0].id
+    upd = [s for s in own_nodes(f.node) if isinstance(s, ast.Assign) and norm(s.targets[0]) == mx and isinstance(s.value, ast.Call) and norm(s.value.func) == "max"]
+    ctx.require(len(upd) >= 2, rule, f.qname, "max updates not found")
+    pos = next((norm(a) for a in upd[0].value.args if norm(a) != mx), None)
+    ctx.require(pos is not None, rule, f.qname, "cursor variable not found")
+    n = 0
+    for s in own_nodes(f.node):
+        moves = (isinstance(s, ast.AugAssign) and norm(s.target) == pos) or \
+                (isinstance(s, ast.Assign) and any(norm(x) == pos for t in s.targets for x in ([t] + (list(t.elts) if isinstance(t, ast.Tuple) else []))))
+        if not moves:
+            continue
+        blk = None
+        par = getattr(s, "_parent", None)
+        for fld in ("body", "orelse"):
+            b = getattr(par, fld, None)
+            if isinstance(b, list) and any(s is x for x in b):
+                blk = b
+        if blk is None or not any(isinstance(p, (ast.For, ast.While)) for p in _anc(s, f.node)):
+            continue
+        # an element that is skipped (`continue` closes one of the enclosing blocks) only keeps the cursor in step with the file
+        skipped, c0 = False, s
+        while c0 is not None and c0 is not f.node and not isinstance(c0, (ast.For, ast.While)):
+            pp = getattr(c0, "_parent", None)
+            for fld in ("body", "orelse"):
+                b = getattr(pp, fld, None)
+                if isinstance(b, list) and any(c0 is x for x in b) and isinstance(b[-1], ast.Continue):
+                    skipped = True
+            c0 = pp
+        if skipped:
+            continue
+        n += 1
+        after = blk[next(i for i, x in enumerate(blk) if x is s) + 1:]
+        cur, ok = par, any(u in after for u in upd)
+        # the update may also follow the enclosing if-block of the move
+        while not ok and cur is not None and cur is not f.node and not isinstance(cur, (ast.For, ast.While)):
+            pp = getattr(cur, "_parent", None)
+            for fld in ("body", "orelse"):
+                b = getattr(pp, fld, None)
+                if isinstance(b, list) and any(cur is x for x in b):
+                    ok = any(u in b[next(i for i, x in enumerate(b) if x is cur) + 1:] for u in upd)
+            cur = pp
+        ctx.check(ok, rule, f"`{norm(s)[:40]}` followed by the max update", func=f, node=s, construct=f"cursor-move-without-maxtime:{norm(s)[:25]}",
+                  msg=f"`{norm(s)[:60]}` moves the cursor but `{mx} = max({mx}, {pos})` does not follow in that branch: a <forward>/<note> that ends the "
+                      f"longest voice no longer extends the measure, so the right barline and everything after it is placed too early")
+    ctx.floor(rule, "cursor moves in the element loop", n, 3)
+
+
+def rule_ppq_over_all_divisions(ctx):
+    rule = "PPQ-all"
+    ctx.rule(rule, "get_ppq takes the lcm over *every* divisions value of every part (all rows of quarter_durations()), not one per part")
+    f = ctx.prog.func("partitura.io.exportmidi:get_ppq", rule)
+    subs = [s for s in ast.walk(f.node) if isinstance(s, ast.Subscript) and isinstance(s.value, ast.Call) and norm(s.value.func).endswith("quarter_durations")]
+    ctx.require(len(subs) >= 1, rule, f.qname, "quarter_durations() column not found")
+    for s in subs:
+        sl = s.slice
+        ok = isinstance(sl, ast.Tuple) and len(sl.elts) == 2 and isinstance(sl.elts[0], ast.Slice) and sl.elts[0].lower is None and sl.elts[0].upper is None
+        ctx.check(ok, rule, f"`{norm(s)[:50]}`", func=f, node=s, construct="ppq-from-first-divisions-only",
+                  msg=f"`{norm(s)[:60]}` selects {'one row' if not ok else 'all rows'} of the part's divisions table: a part whose divisions change (2 then 3) is "
+                      f"exported with a ppq that cannot represent the later section")
+    lcm = any(isinstance(c, ast.Call) and norm(c.func) in ("np.lcm.reduce", "numpy.lcm.reduce") for c in ast.walk(f.node))
+    ctx.check(lcm, rule, "lcm over the divisions", func=f, construct="ppq-not-lcm", msg="get_ppq must reduce the divisions with np.lcm")
+
+
+def rule_multiple_divisions_refused(ctx):
+    rule = "DIVS-single"
+    ctx.rule(rule, "note_array_from_part: the divs_pq column is one number per part — a part with several divisions is refused (raise), "
+                   "never silently reported with its first value")
+    f = ctx.prog.func("partitura.utils.music:note_array_from_part", rule)
+    tests = [i for i in own_nodes(f.node) if isinstance(i, ast.If) and any(isinstance(c, ast.Call) and norm(c.func) == "len" for c in ast.walk(i.test))
+             and any(isinstance(c, ast.Constant) and c.value == 1 for c in ast.walk(i.test)) and "quarter" in norm(i.test)]
+    ctx.require(len(tests) == 1, rule, f.qname, "single-divisions test not found")
+    i = tests[0]
+    raises = any(isinstance(x, ast.Raise) for b in i.body for x in ast.walk(b))
+    ctx.check(raises, rule, f"`{norm(i.test)[:40]}` raises", func=f, node=i, construct="multiple-divisions-not-refused",
+              msg=f"under `{norm(i.test)}` the function no longer raises: a part whose divisions change gets the *first* value as divs_pq for all its notes "
+                  f"and the score-level rescaling then uses that wrong scalar")
+
+
+def rule_sibling_formatters(ctx):
+    rule = "SIB-fmt"
+    ctx.rule(rule, "the key / time signature formatters of matchfile_utils are siblings: within one family every formatter sets the same "
+                   "attributes on the value it formats (a formatter that forgets one inherits whatever the previous use left behind)")
+    fam = {}
+    for f in ctx.prog.functions_in("partitura.io.matchfile_utils"):
+        if f.cls is None and f.name.startswith(("format_key_signature", "format_time_signature")) and f.params:
+            ann = f.node.args.args[0].annotation
+            key = norm(ann) if ann is not None else ("format_key_signature" if f.name.startswith("format_key_signature") else "format_time_signature")
+            attrs = sorted({t.attr for t in ast.walk(f.node) if isinstance(t, ast.Attribute) and isinstance(t.ctx, ast.Store)
+                            and isinstance(t.value, ast.Name) and t.value.id == f.params[0]})
+            fam.setdefault(key, []).append((f, attrs))
+    n = 0
+    for key, lst in fam.items():
+        union = sorted({a for _, attrs in lst for a in attrs})
+        for f, attrs in lst:
+            n += 1
+            ctx.touch(f)
+            ctx.check(attrs == union, rule, f"{f.name}: sets {attrs}", func=f, construct=f"formatter-misses:{','.join(sorted(set(union) - set(attrs)))}",
+                      msg=f"{f.name} sets {attrs} on the value but its siblings set {union}: the missing attribute keeps the state of the last formatter "
+                          f"that touched the same object, so the written text depends on what was done before")
+    ctx.floor(rule, "signature formatters", n, 6)
+
+
+def rule_ids_over_all_notes(ctx):
+    rule = "IDS-all"
+    ctx.rule(rule, "update_note_ids_after_unfolding renames every note: it iterates the part's `notes` (tie continuations included), "
+                   "not the tied heads only")
+    f = ctx.prog.func("partitura.utils.music:update_note_ids_after_unfolding", rule)
+    loops = [l for l in own_statements(f.node.body) if isinstance(l, ast.For) and isinstance(l.iter, ast.Attribute) and isinstance(l.iter.value, ast.Name)
+             and l.iter.value.id == f.params[0]]
+    ctx.require(len(loops) >= 1, rule, f.qname, "loop over the part's notes not found")
+    ctx.check(loops[0].iter.attr == "notes", rule, f"iterates `{norm(loops[0].iter)}`", func=f, node=loops[0], construct="ids-not-over-all-notes",
+              msg=f"the id table is built from `{norm(loops[0].iter)}`: notes that are not in it (tie continuations under `notes_tied`) keep their bare id in every "
+                  f"visit, so ids are no longer unique after unfolding")
+
+
+def rule_destinations_deduplicated(ctx):
+    rule = "DEDUP"
+    ctx.rule(rule, "add_segments: the plain jump destinations of a segment are de-duplicated (set) before they are ordered — Path reads "
+                   "that list positionally")
+    f = ctx.prog.func("partitura.score:add_segments", rule)
+    defs = local_defs(f)
+    # by role: the list that is sorted in place and filtered against the volta destinations
+    sorted_names = [c.func.value.id for c in own_nodes(f.node) if isinstance(c, ast.Call) and isinstance(c.func, ast.Attribute) and c.func.attr == "sort"
+                    and isinstance(c.func.value, ast.Name) and not c.args and not c.keywords]
+    cands = [n for n in sorted_names if any(isinstance(v, ast.ListComp) and any(isinstance(c, ast.Compare) and isinstance(c.ops[0], ast.NotIn) and "Volta" in norm(c)
+                                                                                 for i in v.generators[0].ifs for c in ast.walk(i)) for v in defs.get(n, []))]
+    ctx.require(len(cands) == 1, rule, f.qname, f"plain destination list not identified ({sorted_names})")
+    name = cands[0]
+    dedup = any(isinstance(v, ast.Call) and any(isinstance(c, ast.Call) and norm(c.func) in ("set", "dict.fromkeys", "np.unique") for c in ast.walk(v)) for v in defs[name])
+    ctx.check(dedup, rule, f"`{name}` passes through set()", func=f, construct="destinations-not-deduplicated",
+              msg=f"`{name}` is no longer de-duplicated: a barline carrying two marks puts the same forward link into Segment.to twice and the unfolding, which "
+                  f"consumes that list by position, skips a repeat")
+
+
+def rule_tie_group_dissolved_completely(ctx):
+    rule = "TIE-all"
+    ctx.rule(rule, "sanitize_part dissolves a wrong tie group as a whole: the loop that clears tie_next / tie_prev runs over the earlier "
+                   "notes, the note itself and the later notes")
+    f = ctx.prog.func("partitura.score:sanitize_part", rule)
+    loops = [l for l in own_nodes(f.node) if isinstance(l, ast.For) and
+             {t.attr for s in l.body if isinstance(s, ast.Assign) for t in s.targets if isinstance(t, ast.Attribute) and isinstance(s.value, ast.Constant) and s.value.value is None}
+             >= {"tie_next", "tie_prev"}]
+    ctx.require(len(loops) == 1, rule, f.qname, "link-clearing loop not found")
+    it = resolve_alias(loops[0].iter, local_defs(f))
+    attrs = {a.attr for a in ast.walk(it) if isinstance(a, ast.Attribute)}
+    has_self = any(isinstance(e, ast.List) and len(e.elts) == 1 and isinstance(e.elts[0], ast.Name) for e in ast.walk(it))
+    ok = {"tie_prev_notes", "tie_next_notes"} <= attrs and has_self
+    ctx.check(ok, rule, f"clears `{norm(it)[:50]}`", func=f, node=loops[0], construct="tie-group-partly-dissolved",
+              msg=f"the links are cleared on `{norm(it)[:60]}` only: the remaining note(s) of the group keep a one-sided tie (a.tie_next is b while b.tie_prev is None) — "
+                  f"a non-contiguous chain survives sanitising")
+
+
+def rule_accidentals_repeat(ctx):
+    rule = "ACC-repeat"
+    ctx.rule(rule, "pitch_spelling_to_note_name writes |alter| accidental signs (string repetition by the alteration) for sharps and flats "
+                   "beyond the double ones: a fixed string loses triple accidentals")
+    f = ctx.prog.func("partitura.utils.music:pitch_spelling_to_note_name", rule)
+    al = f.params[1]
+    reps = [b for b in ast.walk(f.node) if isinstance(b, ast.BinOp) and isinstance(b.op, ast.Mult) and
+            any(isinstance(x, ast.Constant) and isinstance(x.value, str) for x in (b.left, b.right)) and any(isinstance(n, ast.Name) and n.id == al for n in ast.walk(b))]
+    signs = sorted({x.value for b in reps for x in (b.left, b.right) if isinstance(x, ast.Constant)})
+    ctx.check(len(signs) >= 2, rule, f"repeated signs {signs}", func=f, construct="accidental-not-repeated",
+              msg=f"only {signs} are repeated by the alteration: alter = +/-3 (inside the property's range) is written with a fixed sign and comes back as another pitch")
+
+
+def rule_unison_shortcut_in_transpose_note(ctx):
+    rule = "P1-only"
+    f = ctx.prog.func("partitura.utils.music:transpose_note", rule)
+    ctx.touch(f)
+    step_p, alter_p = f.params[0], f.params[1]
+    defs = local_defs(f)
+    for i in own_nodes(f.node):
+        if not isinstance(i, ast.If):
+            continue
+        rets = [r for r in i.body if isinstance(r, ast.Return) and isinstance(r.value, ast.Tuple) and len(r.value.elts) == 2]
+        for r in rets:
+            a, b = (resolve_alias(x, defs) for x in r.value.elts)
+            unchanged = alter_p in norm(b) and not any(isinstance(x, ast.BinOp) for x in ast.walk(b)) and step_p in norm(a) and not any(isinstance(x, ast.Subscript) for x in ast.walk(a))
+            if not unchanged:
+                continue
+            attrs = {x.attr for x in ast.walk(i.test) if isinstance(x, ast.Attribute)}
+            ok = "quality" in attrs or any(isinstance(c, ast.Constant) and c.value == "P1" for c in ast.walk(i.test))
+            ctx.check(ok, rule, f"transpose_note shortcut `{norm(i.test)[:40]}`", func=f, node=i, construct="identity-by-number-only",
+                      msg=f"transpose_note returns its input unchanged under `{norm(i.test)}`, which does not look at the interval's quality: an augmented or "
+                          f"diminished unison (A1, d1) must still change the alteration")
+
+
+PS13_INIT_MORPH = [0, 1, 1, 2, 2, 3, 4, 4, 5, 5, 6, 6]
+PS13_MORPH_INT = [0, 1, 1, 2, 2, 3, 3, 4, 5, 5, 6, 6]
+
+
+def rule_ps13_tables(ctx):
+    rule = "F3-ps13"
+    ctx.rule(rule, "compute_morph_array uses the two tables of the ps13 algorithm (Meredith 2006): the morph of the first note comes from "
+                   "the initial-morph table [0,1,1,2,2,3,4,4,5,5,6,6], the morphs of the chroma intervals from [0,1,1,2,2,3,3,4,5,5,6,6]")
+    f = ctx.prog.func("partitura.musicanalysis.pitch_spelling:compute_morph_array", rule)
+    defs = local_defs(f)
+    tabs = {}
+    for name, vs in defs.items():
+        for v in vs:
+            if isinstance(v, ast.Call) and norm(v.func) in ("np.array", "numpy.array") and v.args and isinstance(v.args[0], ast.List) and \
+                    all(isinstance(e, ast.Constant) and isinstance(e.value, int) for e in v.args[0].elts) and len(v.args[0].elts) == 12:
+                tabs[name] = [e.value for e in v.args[0].elts]
+    ctx.require(tabs, rule, f.qname, "no 12-entry integer table found")
+    # by role: m0 = T[c0] with c0 = <chroma array>[0]
+    first = [v for vs in defs.values() for v in vs if isinstance(v, ast.Subscript) and isinstance(v.value, ast.Name) and v.value.id in tabs and isinstance(v.slice, ast.Name)
+             and any(isinstance(d, ast.Subscript) and isinstance(d.slice, ast.Constant) and d.slice.value == 0 for d in defs.get(v.slice.id, []))]
+    ctx.require(len(first) == 1, rule, f.qname, "initial morph lookup not found")
+    ctx.check(tabs[first[0].value.id] == PS13_INIT_MORPH, rule, "initial-morph table", func=f, node=first[0], construct="ps13-init-morph-table",
+              msg=f"the first note's morph is read from {tabs[first[0].value.id]}, the algorithm's initial-morph table is {PS13_INIT_MORPH}")
+    ctx.check(PS13_MORPH_INT in tabs.values(), rule, "interval-morph table", func=f, construct="ps13-morph-int-table",
+              msg=f"no table equals the algorithm's interval-morph table {PS13_MORPH_INT} (found {sorted(tabs.values())})")
+
+
+def rule_ticks_round_once(ctx):
+    rule = "F10-ticks"
+    ctx.rule(rule, "seconds_to_midi_ticks = round(1e6 * ppq * seconds / mpq): the only int conversions are applied to the rounded value, "
+                   "and nothing that flows into the rounded expression is truncated first (no intermediate integer rate)")
+    f = ctx.prog.func("partitura.utils.music:seconds_to_midi_ticks", rule)
+    defs = local_defs(f)
+    rounds = [n for n in ast.walk(f.node) if isinstance(n, ast.Call) and norm(n.func) in ("np.round", "round", "np.rint", "np.around")]
+    ctx.require(rounds, rule, f.qname, "rounding call not found")
+    rounded_names = {norm(t) for a in ast.walk(f.node) if isinstance(a, ast.Assign) and a.value in rounds for t in a.targets}
+    for i in [n for n in ast.walk(f.node) if isinstance(n, ast.Call) and (norm(n.func) == "int" or norm(n.func).endswith(".astype"))]:
+        on_rounded = any((isinstance(x, ast.Name) and x.id in rounded_names) or x in rounds for x in ast.walk(i))
+        ctx.check(on_rounded, rule, f"`{norm(i)[:40]}` converts the rounded value", func=f, node=i, construct="int-of-unrounded",
+                  msg=f"`{norm(i)[:60]}` converts something other than the rounded tick value to int: an intermediate integer (e.g. ticks per second) drops a "
+                      f"fraction that grows with the time (ppq=100, mpq=750000: 3.0 s -> 399 instead of 400)")
+    for r in rounds:
+        todo, seen = [r.args[0]] if r.args else [], set()
+        while todo:
+            e = todo.pop()
+            for x in ast.walk(e):
+                if isinstance(x, ast.Name) and x.id in defs and x.id not in seen:
+                    seen.add(x.id)
+                    todo.extend(defs[x.id])
+                bad = (isinstance(x, ast.BinOp) and isinstance(x.op, ast.FloorDiv)) or \
+                      (isinstance(x, ast.Call) and norm(x.func) in ("int", "np.floor", "np.ceil", "math.floor", "math.ceil", "np.trunc"))
+                ctx.check(not bad, rule, f"inside the rounded expression: `{norm(x)[:30]}`", func=f, node=x, construct="truncated-before-rounding",
+                          msg=f"`{norm(x)[:60]}` truncates a quantity that flows into the rounded tick value") if bad else None
+    ctx.ok(rule, "seconds_to_midi_ticks: single rounding")
+
+
+def rule_renumber_every_part_fully(ctx):
+    q = "partitura.performance:Performance.sanitize_track_numbers"
+    f = ctx.prog.func(q, "ROUND-all")
+
+    def part_loop(fi):
+        return next((l for l in own_statements(fi.node.body) if isinstance(l, ast.For) and isinstance(l.iter, ast.Call) and norm(l.iter.func) == "enumerate"
+                     and any(isinstance(s, ast.For) for s in l.body)), None)
+    lp = part_loop(f)
+    ctx.require(lp is not None, "ROUND-all", q, "loop over the parts not found")
+    inner = [s for s in lp.body if isinstance(s, ast.For) and any(isinstance(t, ast.Subscript) and isinstance(t.ctx, ast.Store) for t in ast.walk(s))]
+    ctx.require(len(inner) >= 3, "ROUND-all", q, f"only {len(inner)} renumbering loops found (notes, controls, programs expected)")
+    for s in inner:
+        rule_every_round_passes(ctx, q, part_loop, lambda fi, l, s=s: s, f"every part renumbers `{norm(s.iter)[:20]}`",
+                                f"some path through the loop over the parts skips the renumbering of `{norm(s.iter)}`: that part keeps its old track numbers "
+                                f"there, which collide with the numbers handed to another part")
+
+
+def rule_info_attribute_normalised(ctx):
+    rule = "ATTR-norm"
+    ctx.rule(rule, "MatchInfo.from_instance: the attribute name recorded in the 1.0.0 line is the normalised one — the same value that "
+                   "selects the line's format in the version table (an old spelling would be written in a form the 1.0.0 parser rejects)")
+    f = ctx.prog.func("partitura.io.matchlines_v1:MatchInfo.from_instance", rule)
+    defs = local_defs(f)
+    tabs = [n for n, vs in defs.items() for v in vs if isinstance(v, ast.Subscript) and "INFO_LINE" in norm(v.value)]
+    ctx.require(len(tabs) == 1, rule, f.qname, "version table lookup not found")
+    look = [s for s in ast.walk(f.node) if isinstance(s, ast.Subscript) and isinstance(s.ctx, ast.Load) and isinstance(s.value, ast.Name) and s.value.id == tabs[0]]
+    ctx.require(len(look) >= 1, rule, f.qname, "format lookup not found")
+    key = norm(look[0].slice)
+    ctor = [c for c in own_nodes(f.node) if isinstance(c, ast.Call) and isinstance(c.func, ast.Name) and c.func.id == f.params[0]]
+    ctx.require(len(ctor) == 1, rule, f.qname, "constructor call not found")
+    kw = next((k.value for k in ctor[0].keywords if k.arg == "attribute"), None)
+    ctx.require(kw is not None, rule, f.qname, "attribute= not found")
+    ctx.check(norm(kw) == key, rule, f"attribute={norm(kw)[:30]}", func=f, node=ctor[0], construct="attribute-not-normalised",
+              msg=f"the line is built with `attribute={norm(kw)}` but its format was selected with `{key}`: a historical spelling (`midiFilename`) is "
+                  f"carried into the 1.0.0 line, written with the wrong quoting and lost when the file is read again")
